@@ -109,6 +109,7 @@ def wrap_vector(kind, values, index_plan="default", name=None):
 
 
 vector_kind = st.sampled_from(VECTOR_KINDS)
+vector_kind_pandas_heavy = st.sampled_from(["series", "dataframe", "series", "list", "ndarray", "ndarray2d"])
 index_plan = st.sampled_from(INDEX_PLANS)
 
 
